@@ -159,6 +159,23 @@ let dispatch (name : string) (args : sx list) : string =
         let tagb n = if eq_big_int n zero_big_int then Model.str_bytes (explode "TapLeaf") else Model.str_bytes (explode "TapSighash") in
         opt hex_of (Model.taproot_sighash Model.sha256 tagb st spent (nat_of i) (z_of ht) leaf)
       with Bad -> "ERR")
+  (* ---- C15 ---- *)
+  | "header", [raw] ->
+      (match Model.header_from_raw (bytes_of raw) with
+       | None -> "ERR"
+       | Some h ->
+           zs h.Model.h_version ^ "," ^ hex_of h.Model.h_prev ^ "," ^ hex_of h.Model.h_merkle ^ "," ^ zs h.Model.h_time
+           ^ "," ^ zs h.Model.h_bits ^ "," ^ zs h.Model.h_nonce
+           ^ "|" ^ opt hex_of (Model.serialize_header h)
+           ^ "|" ^ opt hex_of (Model.get_block_hash Model.sha256 h)
+           ^ "|" ^ opt zs (Model.get_target h))
+  | "txlen", [raw] -> opt zs (Model.get_transaction_length (bytes_of raw))
+  | "block", [raw] ->
+      (match Model.block_from_raw (bytes_of raw) with
+       | None -> "ERR"
+       | Some b ->
+           hex_of b.Model.b_magic ^ "," ^ zs b.Model.b_size ^ "," ^ zs b.Model.b_count ^ "," ^ string_of_int (List.length b.Model.b_txs)
+           ^ "|" ^ sep ";" (fun t -> opt hex_of (Model.tx_serialize t)) b.Model.b_txs)
   (* ---- C01 / C16 ---- *)
   | "sha256", [b] -> hex_of (Model.sha256 (bytes_of b))
   | "tx_facts", [t] -> tx_facts (tx_of t)
